@@ -2,57 +2,81 @@
    Only statements closed by `exact`, each followed by Print Assumptions; one Example of
    non-vacuity per theorem with hypotheses.
    What is proved here is about the MODEL (coq/Config.v): an abstract interpreter whose only
-   configuration-dependent construct is a switch-guarded error test, the sequence API of Array.c written
-   in it, and the audit of the guarded blocks of the C source (Generated.v, tools/genx_cfg.py).
-   Optimisation levels, the header layout, the method cache and the collector are compiler / ABI /
-   other-property matters: for those the correspondence run (props/C18.py) is the check. *)
+   configuration-dependent constructs are a switch-guarded error test (`checks`) and a method lookup that
+   goes through the type's cache slots (`cache`), the sequence API of Array.c written in it, and the audit
+   of the guarded blocks and of the cache wiring of the C source (Generated.v, tools/genx_cfg.py).
+   Optimisation levels, the header layout and the collector are compiler / ABI / other-property matters:
+   for those the correspondence run (props/C18.py) is the check. *)
 From CelloV Require Import Generated Config ConfigProofs.
 From Coq Require Import List ZArith String.
 Import ListNotations.
 
-(* 1. one API call: if no switch-guarded test succeeds, every two configurations compute the same
-      state and the same outcome — for every state type, value type and body *)
-Theorem config_independent : forall (St Val : Type) (p : prog St Val) (s : St) (c1 c2 : config),
-  fires St Val p s = false -> run St Val c1 p s = run St Val c2 p s.
+(* 1. one API call: with sound method caches, if no switch-guarded test succeeds, every two
+      configurations compute the same state and the same outcome — for every state type, value type
+      and body *)
+Theorem config_independent :
+  forall (St Val : Type) (p : prog St Val) (s : St) (T : types) (c1 c2 : config),
+  types_ok T -> fires St Val p s T = false ->
+  rst St Val (run St Val c1 p s T) = rst St Val (run St Val c2 p s T) /\
+  rout St Val (run St Val c1 p s T) = rout St Val (run St Val c2 p s T).
 Proof. exact ConfigProofs.run_indep. Qed.
 Print Assumptions config_independent.
 
 Example config_independent_nonvacuous :
-  fires aseq Z (abody (AGet (-1))) [4; 5; 6]%Z = false /\
-  run aseq Z (cfg_build true true true) (abody (AGet (-1))) [4; 5; 6]%Z = ([4; 5; 6]%Z, OVal 6%Z).
-Proof. split; reflexivity. Qed.
+  types_ok two_types /\
+  fires aseq Z (abody (AGet (-1))) [4; 5; 6]%Z two_types = false /\
+  run aseq Z (cfg_build true true true) (abody (AGet (-1))) [4; 5; 6]%Z two_types = ([4; 5; 6]%Z, two_types, OVal 6%Z).
+Proof. split; [exact two_types_ok | split; reflexivity]. Qed.
+
+(* 1b. the invariant behind it: from sound caches with equal instance lists, any two configurations end
+       in the same state and outcome, with sound caches and untouched instance lists *)
+Theorem config_simulation :
+  forall (St Val : Type) (p : prog St Val) (s : St) (T1 T2 : types) (c1 c2 : config),
+  types_ok T1 -> types_ok T2 -> same_insts T1 T2 -> fires St Val p s T1 = false ->
+  rst St Val (run St Val c1 p s T1) = rst St Val (run St Val c2 p s T2) /\
+  rout St Val (run St Val c1 p s T1) = rout St Val (run St Val c2 p s T2) /\
+  types_ok (rty St Val (run St Val c1 p s T1)) /\ types_ok (rty St Val (run St Val c2 p s T2)) /\
+  same_insts (rty St Val (run St Val c1 p s T1)) (rty St Val (run St Val c2 p s T2)) /\
+  same_insts T1 (rty St Val (run St Val c1 p s T1)).
+Proof. exact ConfigProofs.run_sim. Qed.
+Print Assumptions config_simulation.
 
 (* 2. the property's wording: a call that takes no error path in the default build *)
-Theorem config_independent_no_error_path : forall (St Val : Type) (p : prog St Val) (s : St) (c : config),
-  is_raise Val (snd (run St Val cfg_default p s)) = false ->
-  run St Val c p s = run St Val cfg_default p s.
+Theorem config_independent_no_error_path :
+  forall (St Val : Type) (p : prog St Val) (s : St) (T : types) (c : config),
+  types_ok T -> is_raise Val (rout St Val (run St Val cfg_default p s T)) = false ->
+  rst St Val (run St Val c p s T) = rst St Val (run St Val cfg_default p s T) /\
+  rout St Val (run St Val c p s T) = rout St Val (run St Val cfg_default p s T).
 Proof. exact ConfigProofs.run_indep_no_raise. Qed.
 Print Assumptions config_independent_no_error_path.
 
 Example config_independent_no_error_path_nonvacuous :
-  is_raise Z (snd (run aseq Z cfg_default (abody (APopAt 1)) [4; 5; 6]%Z)) = false.
+  is_raise Z (rout aseq Z (run aseq Z cfg_default (abody (APopAt 1)) [4; 5; 6]%Z two_types)) = false.
 Proof. reflexivity. Qed.
 
 (* 3. whole programs: a history of API calls (exceptions caught by the caller, a crash ends the run)
       on which the default build takes no error path has the same transcript and the same final state
       in every two configurations — for every API written in the interpreter *)
 Theorem history_config_independent :
-  forall (St Val Op : Type) (body : Op -> prog St Val) (h : list Op) (s : St) (c1 c2 : config),
-  no_error_path St Val Op body h s = true ->
-  run_history St Val Op body c1 h s = run_history St Val Op body c2 h s.
+  forall (St Val Op : Type) (body : Op -> prog St Val) (h : list Op) (s : St) (T : types) (c1 c2 : config),
+  types_ok T -> no_error_path St Val Op body h s T = true ->
+  hst St Val (run_history St Val Op body c1 h s T) = hst St Val (run_history St Val Op body c2 h s T) /\
+  hout St Val (run_history St Val Op body c1 h s T) = hout St Val (run_history St Val Op body c2 h s T).
 Proof. exact ConfigProofs.history_config_independent. Qed.
 Print Assumptions history_config_independent.
 
 Example history_config_independent_nonvacuous :
-  no_error_path aseq Z aop abody [APush 1; APush 2; APushAt 9 (-1); AGet (-3); APop; ALen]%Z [] = true.
-Proof. reflexivity. Qed.
+  no_error_path aseq Z aop abody [APush 1; APush 2; APushAt 9 (-1); AGet (-3); APop; ALen]%Z [] two_types = true /\
+  no_error_path unit nat dop dbody [DCall 0 "Len"; DCall 0 "Hash"; DCall 1 "Len"; DCall 0 "Len"]%string tt two_types = true.
+Proof. split; vm_compute; reflexivity. Qed.
 
 (* 3b. the weaker hypothesis actually needed: no *guarded* test succeeds (an unguarded throw such as
        the ValueError of rem, or a KeyError, is the same in all builds and may occur) *)
 Theorem history_config_independent_guarded :
-  forall (St Val Op : Type) (body : Op -> prog St Val) (h : list Op) (s : St) (c1 c2 : config),
-  history_fires St Val Op body h s = false ->
-  run_history St Val Op body c1 h s = run_history St Val Op body c2 h s.
+  forall (St Val Op : Type) (body : Op -> prog St Val) (h : list Op) (s : St) (T : types) (c1 c2 : config),
+  types_ok T -> history_fires St Val Op body h s T = false ->
+  hst St Val (run_history St Val Op body c1 h s T) = hst St Val (run_history St Val Op body c2 h s T) /\
+  hout St Val (run_history St Val Op body c1 h s T) = hout St Val (run_history St Val Op body c2 h s T).
 Proof. exact ConfigProofs.history_indep. Qed.
 Print Assumptions history_config_independent_guarded.
 
@@ -61,25 +85,49 @@ Example history_config_independent_guarded_nonvacuous :
   snd (arun cfg_default [APush 1; ARem 7; ALen]%Z []) = [ODone; ORaise XValueError; OVal 1%Z].
 Proof. split; reflexivity. Qed.
 
-(* 4. the interpreter reads nothing of the configuration but the check switches (the cache and the
-      collector are not part of this model: their transparency is C08's and C01's statement) *)
-Theorem run_reads_checks_only : forall (St Val : Type) (p : prog St Val) (s : St) (c1 c2 : config),
-  (forall sw, checks c1 sw = checks c2 sw) -> run St Val c1 p s = run St Val c2 p s.
-Proof. exact ConfigProofs.run_checks_only. Qed.
-Print Assumptions run_reads_checks_only.
+(* 4. Type.c alone: on a type whose filled slots are sound, any sequence of lookups returns the same
+      instances with the cache (CELLO_CACHE == 1) as without; a freshly initialised type is sound.
+      Needs that no two classes share a slot — re-checked on the wiring extracted from Type_Instance *)
+Theorem cache_transparent : forall (cs : list string) (t1 t2 : tyobj),
+  cache_ok t1 -> cache_ok t2 -> tinsts t1 = tinsts t2 -> lookups true t1 cs = lookups false t2 cs.
+Proof. exact ConfigProofs.lookups_transparent. Qed.
+Print Assumptions cache_transparent.
 
-Example run_reads_checks_only_nonvacuous :
-  forall sw, checks (cfg_build true false true) sw = checks (cfg_build true true false) sw.
-Proof. reflexivity. Qed.
+Example cache_transparent_nonvacuous :
+  cache_ok (fresh_type [("Len", 7); ("Hash", 9)]%string) /\
+  lookups true (fresh_type [("Len", 7); ("Hash", 9)]%string) ["Hash"; "Len"; "Hash"; "Cmp"]%string = [Some 9; Some 7; Some 9; None].
+Proof. split; [apply fresh_type_ok | vm_compute; reflexivity]. Qed.
 
-(* 5. Array.c: the contract of each call, arithmetically (index normalisation and bounds tests are the
+(* 4b. the soundness hypothesis cannot be dropped: a slot holding another class's instance changes the
+       outcome of a call between cache on and cache off *)
+Theorem unsound_cache_configs_differ :
+  exists T, same_insts T two_types /\
+    rout unit nat (run unit nat cfg_default (dbody (DCall 0 "Hash"%string)) tt T) <>
+    rout unit nat (run unit nat (cfg_build false true false) (dbody (DCall 0 "Hash"%string)) tt T).
+Proof. exact ConfigProofs.unsound_cache_differs. Qed.
+Print Assumptions unsound_cache_configs_differ.
+
+(* 5. the interpreter reads nothing of the configuration but the check switches and the cache flag (the
+      collector is not part of this model: its transparency is C01's statement) *)
+Theorem run_reads_checks_and_cache_only :
+  forall (St Val : Type) (p : prog St Val) (s : St) (T : types) (c1 c2 : config),
+  (forall sw, checks c1 sw = checks c2 sw) -> cache c1 = cache c2 -> run St Val c1 p s T = run St Val c2 p s T.
+Proof. exact ConfigProofs.run_reads_checks_cache. Qed.
+Print Assumptions run_reads_checks_and_cache_only.
+
+Example run_reads_checks_and_cache_only_nonvacuous :
+  (forall sw, checks (cfg_build true false true) sw = checks (cfg_build true false false) sw) /\
+  cache (cfg_build true false true) = cache (cfg_build true false false).
+Proof. split; reflexivity. Qed.
+
+(* 6. Array.c: the contract of each call, arithmetically (index normalisation and bounds tests are the
       ones re-extracted from the source): a guarded test succeeds exactly outside it *)
-Theorem array_contract : forall (o : aop) (s : aseq),
-  fires aseq Z (abody o) s = false <-> in_contract o s.
+Theorem array_contract : forall (o : aop) (s : aseq) (T : types),
+  fires aseq Z (abody o) s T = false <-> in_contract o s.
 Proof. exact ConfigProofs.afires_char. Qed.
 Print Assumptions array_contract.
 
-(* 6. Array.c: inside the contract every configuration computes what the configuration-free list
+(* 7. Array.c: inside the contract every configuration computes what the configuration-free list
       specification says (state and outcome), for whole histories *)
 Theorem array_meets_spec : forall (h : list aop) (s : aseq) (c : config),
   all_some (snd (aspec_history h s)) = true ->
@@ -93,7 +141,7 @@ Example array_meets_spec_nonvacuous :
     = [ODone; ODone; ODone; ODone; OVal 8; OVal 1; ODone; OVal 0]%Z.
 Proof. split; reflexivity. Qed.
 
-(* 7. Array.c: every two configurations agree on every history on which no bounds test succeeds *)
+(* 8. Array.c: every two configurations agree on every history on which no bounds test succeeds *)
 Theorem array_config_independent : forall (h : list aop) (s : aseq) (c1 c2 : config),
   afires h s = false -> arun c1 h s = arun c2 h s.
 Proof. exact ConfigProofs.array_config_independent. Qed.
@@ -103,19 +151,19 @@ Example array_config_independent_nonvacuous :
   afires [APush 1; APush 2; APopAt (-2); AGet 0]%Z [] = false.
 Proof. reflexivity. Qed.
 
-(* 8. the hypothesis cannot be dropped: outside the contract the builds differ (checked build raises,
+(* 9. the hypothesis cannot be dropped: outside the contract the builds differ (checked build raises,
       CELLO_NDEBUG build runs into the access) *)
 Theorem out_of_contract_configs_differ :
   exists (o : aop) (s : aseq),
-    snd (run aseq Z cfg_default (abody o) s) = ORaise XIndexOutOfBounds /\
-    snd (run aseq Z (cfg_build true false false) (abody o) s) = OCrash.
+    snd (run aseq Z cfg_default (abody o) s []) = ORaise XIndexOutOfBounds /\
+    snd (run aseq Z (cfg_build true false false) (abody o) s []) = OCrash.
 Proof. exact ConfigProofs.array_out_of_contract_differs. Qed.
 Print Assumptions out_of_contract_configs_differ.
 
-(* 9. the source: the CELLO_*_CHECK switches of Cello.h are exactly the model's six, each derived from
-      CELLO_NDEBUG; every `#if CELLO_<X>_CHECK == 1` block of src/*.c is a pure test followed by throw,
-      except exactly the three audited ones (two header-field stores in header_init, the poisoning of
-      a block about to be freed in dealloc); conditions call only audited readers *)
+(* 10. the source: the CELLO_*_CHECK switches of Cello.h are exactly the model's six, each derived from
+       CELLO_NDEBUG; every `#if CELLO_<X>_CHECK == 1` block of src/*.c is a pure test followed by throw,
+       except exactly the three audited ones (two header-field stores in header_init, the poisoning of
+       a block about to be freed in dealloc); conditions call only audited readers *)
 Theorem source_switches_and_guarded_blocks :
   cfg_check_switches = map switch_name all_switches /\
   forallb block_ok cfg_guarded_blocks = true /\
@@ -130,15 +178,22 @@ Proof.
 Qed.
 Print Assumptions source_switches_and_guarded_blocks.
 
-(* 10. the source: the places where the collector (CELLO_NGC) and the method cache (CELLO_CACHE) are
-       compiled in or out are the audited ones (a new one must be looked at) *)
+(* 11. the source: the places where the collector (CELLO_NGC) and the method cache (CELLO_CACHE) are
+       compiled in or out are the audited ones (a new one must be looked at); the cache wiring of
+       Type_Instance gives every class its own slot, all inside the CELLO_CACHE_NUM slots *)
 Theorem source_ngc_and_cache_sites :
   list_eqb pair_eqb cfg_ngc_blocks audited_ngc_blocks = true /\
-  list_eqb pair_eqb cfg_cache_uses audited_cache_uses = true.
-Proof. exact ConfigProofs.ngc_cache_sites_audited. Qed.
+  list_eqb pair_eqb cfg_cache_uses audited_cache_uses = true /\
+  nodupb (map fst cfg_cache_wiring) = true /\
+  forallb (fun w : nat * string => Nat.ltb (fst w) cello_cache_num) cfg_cache_wiring = true /\
+  List.length cfg_cache_wiring = cello_cache_num.
+Proof.
+  exact (conj (proj1 ConfigProofs.ngc_cache_sites_audited)
+        (conj (proj2 ConfigProofs.ngc_cache_sites_audited) ConfigProofs.cache_wiring_audited)).
+Qed.
 Print Assumptions source_ngc_and_cache_sites.
 
-(* 11. the object header: one word plus one per enabled ALLOC / MAGIC switch — three words in the
+(* 12. the object header: one word plus one per enabled ALLOC / MAGIC switch — three words in the
        default build, one under CELLO_NDEBUG *)
 Theorem header_words_of_builds : forall (nocache ngc : bool),
   header_words (cfg_build false nocache ngc) = 3 /\ header_words (cfg_build true nocache ngc) = 1.
